@@ -288,6 +288,11 @@ func c01CrashClass(t reflect.Type, v reflect.Value, how int) string {
 	if strings.Contains(ts, "<ptrshaped>") {
 		return "PointerShapedAggregate"
 	}
+	for _, n := range []string{"*main.TgTV", "*main.TgIntKey", "*main.TgMV", "*time.Time", "*main.TgMErr", "*json.Number", "*json.RawMessage"} {
+		if strings.Contains(ts, n) {
+			return "NilPtrToValueReceiverMarshaler"
+		}
+	}
 	deep := strings.Contains(ts, "**") || (how == 1 && t.Kind() == reflect.Ptr)
 	if deep {
 		for _, n := range []string{"main.TgMP", "main.TgTP", "main.TgTV", "main.TgMV", "main.TgIntKey", "main.TgMErr", "json.RawMessage", "json.Number", "time.Time"} {
